@@ -50,6 +50,16 @@ pub(super) fn reconstruct_blocks_from_verified_blobs(
 
     // match rollup blobs to header blobs
     for rollup in rollup_blobs {
+        // Anyone can post to the rollup's namespace. Data that was sequenced for another rollup
+        // carries a valid proof too, but is not this rollup's data.
+        if rollup.rollup_id() != rollup_id {
+            info!(
+                block_hash = %rollup.sequencer_block_hash(),
+                rollup_id_in_blob = %rollup.rollup_id(),
+                "dropping rollup blob: it contains data for a different rollup",
+            );
+            continue;
+        }
         if let Some(header_blob) =
             remove_header_blob_matching_rollup_blob(&mut header_blobs, &rollup)
         {
